@@ -359,6 +359,26 @@ func faultPhase(events []world.Event) string {
 	return "none"
 }
 
+// genDeployedLookupFault returns a storage READ fault on one of the "which revision is deployed" lookups op makes
+// (Kind "" when it makes none).
+func genDeployedLookupFault(t *rapid.T, w *world.World, op *world.Op) world.Fault {
+	dry := w.DryCount(op)
+	total := 0
+	var lookups []int
+	for _, e := range dry.Events {
+		if e.Layer == "store" {
+			if e.Verb == "Query" && strings.Contains(e.Key, "deployed") {
+				lookups = append(lookups, total)
+			}
+			total++
+		}
+	}
+	if len(lookups) == 0 {
+		return world.Fault{}
+	}
+	return world.Fault{Kind: "store", K: lookups[rapid.IntRange(0, len(lookups)-1).Draw(t, "deployedLookup")], StoreReads: true}
+}
+
 // genPhasedFault draws a cluster-side fault so that the phases of the operation (pre-hook, each request verb on manifest
 // resources, readiness wait, post-hook, other waiter calls) are equally likely, and positions within a phase are uniform.
 // Positions come from a fault-free dry run of op on a clone of w, so every drawn fault can fire.
@@ -427,6 +447,18 @@ func newRevTracker() *revTracker {
 	return &revTracker{everDep: map[int]string{}, specOf: map[int]world.ChartSpec{}}
 }
 
+// storedHooks is the text of the hooks stored with a revision (path and manifest), in stored order.
+func storedHooks(r world.Rev) string {
+	if r.Rel == nil {
+		return ""
+	}
+	var sb strings.Builder
+	for _, h := range r.Rel.Hooks {
+		sb.WriteString(h.Path + "\n" + h.Manifest + "\n--\n")
+	}
+	return sb.String()
+}
+
 // observe records which revisions were seen deployed and which spec each revision's manifest came from.
 func (j *revTracker) observe(op *world.Op, res *world.Result) {
 	preSet, postSet := revSet(res.Pre), revSet(res.Post)
@@ -478,9 +510,16 @@ func (j *revTracker) observe(op *world.Op, res *world.Result) {
 			vs = append(vs, v)
 		}
 		sort.Sort(sort.Reverse(sort.IntSlice(vs)))
-		for _, v := range vs {
-			if pr, ok := postSet[v]; ok && pr.Manifest == postSet[c].Manifest {
-				j.specOf[c] = j.specOf[v]
+		// two revisions may share the manifest text and differ in their hooks: prefer the one whose stored hooks are
+		// the same too (attribution only - what the revision must do is still judged against the spec)
+		for _, sameHooks := range []bool{true, false} {
+			for _, v := range vs {
+				if pr, ok := postSet[v]; ok && pr.Manifest == postSet[c].Manifest && (!sameHooks || storedHooks(pr) == storedHooks(postSet[c])) {
+					j.specOf[c] = j.specOf[v]
+					break
+				}
+			}
+			if _, ok := j.specOf[c]; ok {
 				break
 			}
 		}
